@@ -203,6 +203,7 @@ func e2eOne(c *Ctx, prop string, idx int, seed int64, sp *e2eSpec, dir string) {
 	oracleIntegrity(o, v)
 	oracleRelease(o, v)
 	oraclePollTiming(o, v)
+	oracleSentLog(o, v)
 	oracleProgress(o, v)
 	oracleOnce(o, v)
 	oracleLedger(o, v)
